@@ -1960,6 +1960,29 @@ def variant_test(t, labs):
     return None
 
 
+def variant_bool(t):
+    """-> (subject, variant name, polarity): the boolean term is `subject is <variant>` (True) or `subject is not <variant>`
+    (False) — written as ==/!= against the unit variant, `matches!`, or a match with constant arms; None otherwise"""
+    e = eq_test(t, ("notin", "0"))
+    if e is not None and len(e[0]) == 2 and e[1] is not None:
+        a, b = tuple(e[0])
+        for x, y in ((a, b), (b, a)):
+            if isinstance(y, tuple) and len(y) == 4 and y[0] == "agg" and not y[3] and not (isinstance(x, tuple) and len(x) == 4 and x[0] == "agg"):
+                return (x, y[2], e[1])
+    if isinstance(t, tuple) and t and t[0] == "gamma" and all(v in (("const", 0), ("const", 1)) for l, v in t[2]):
+        out = set()
+        for l, v in t[2]:
+            vt = variant_test(t[1], l)
+            if vt is None:
+                return None
+            subj, name, pol = vt
+            # on this edge `subject is name` has truth value pol, and the term has value v
+            out.add((subj, name, pol == (v == ("const", 1))))
+        if len(out) == 1:
+            return next(iter(out))
+    return None
+
+
 def eq_test(t, labs):
     """-> (frozenset{a, b}, polarity): the edge asserts a == b (True) / a != b (False); Eq/Ne binops, PartialEq::eq/ne
     calls and negations of them; None when t is not an equality test or the edge asserts neither"""
